@@ -888,7 +888,15 @@ func (r *run) rejected(st traceStage, name string, lines []string, o tlcOut, dir
 	}
 	lo, hi := 0, len(lines)
 	if at > 0 {
-		hi = at
+		// invariant/property violation: the state printed last has l = (offending line)+1;
+		// unexplained line (postcondition): `at` states = at-1 consumed lines, line `at` is unexplained
+		hi = at - 1
+		if strings.HasPrefix(what, "no specification") {
+			hi = at
+		}
+		if hi < 1 {
+			hi = 1
+		}
 		if hi > len(lines) {
 			hi = len(lines)
 		}
@@ -905,12 +913,19 @@ func (r *run) rejected(st traceStage, name string, lines []string, o tlcOut, dir
 		_ = json.Unmarshal([]byte(l), &v)
 		excerpt = append(excerpt, v)
 	}
-	detail := fmt.Sprintf("recorded trace rejected by %s/%s: %s (line %d of %d)", orDefault(st.Module, r.cfg.Module), st.Spec, what, at-1, len(lines))
+	var offending any
+	if len(excerpt) > 0 {
+		offending = excerpt[len(excerpt)-1]
+	}
+	if m := regexp.MustCompile(`/\\ bad = "([^"]+)"`).FindAllStringSubmatch(o.out, -1); len(m) > 0 {
+		what += " [" + m[len(m)-1][1] + "]"
+	}
+	detail := fmt.Sprintf("recorded trace rejected by %s/%s: %s (line %d of %d)", orDefault(st.Module, r.cfg.Module), st.Spec, what, hi, len(lines))
 	_ = os.MkdirAll(filepath.Join(verifRoot, "replay"), 0o755)
 	path := filepath.Join(verifRoot, "replay", fmt.Sprintf("%s-%s-seed%d.json", r.cfg.Property, name, r.seed))
 	raw, _ := json.MarshalIndent(map[string]any{
 		"property": r.cfg.Property, "kind": "trace", "detail": detail, "seed": r.seed, "tier": r.tier,
-		"trace_up_to_rejection": excerpt, "tlc": tail(o.out, 60),
+		"trace_up_to_rejection": excerpt, "offending_event": offending, "tlc": tail(o.out, 160),
 	}, "", " ")
 	_ = os.WriteFile(path, raw, 0o644)
 	r.violations = append(r.violations, kit.Violation{Property: r.cfg.Property, Kind: "trace", Detail: detail, Replay: path})
